@@ -672,7 +672,13 @@ func pathElems(p *pb.Path) []*pb.PathElem {
 func (t *Target) gnmiRemove(n *pb.Notification) []*ctree.Leaf {
 	path := joinPrefixAndPath(n.Prefix, n.Delete[0])
 	if len(path) > 1 && path[0] == metadata.Root {
-		t.meta.ResetEntry(path[1])
+		switch path[1] {
+		case metadata.LeafCount, metadata.AddCount, metadata.DelCount:
+			// These describe the leaves in the tree, which a delete of the
+			// exported metadata leaf does not change.
+		default:
+			t.meta.ResetEntry(path[1])
+		}
 	}
 	var leaves []*ctree.Leaf
 	// Metadata leaves are not counted as target leaves when added, so they
